@@ -2,6 +2,7 @@ package main
 
 import (
 	"fmt"
+	"time"
 
 	fpgo "github.com/TeaEntityLab/fpGo/v2"
 	"github.com/TeaEntityLab/fpGo/v2/zzverif/vsched"
@@ -228,6 +229,67 @@ func reconfigureScenario(toNil bool, bound int) *vsched.Scenario {
 	}
 }
 
+// noOnNextScenario: "a Subscription without OnNext runs nothing" for every combination of handlers - neither
+// the outer effect, nor the FlatMap function, nor the inner effect, on any goroutine, however long one waits
+// (the run ends at quiescence of all handler goroutines); a normal subscription made afterwards runs each once.
+func noOnNextScenario(ob, sub bool, bound int) *vsched.Scenario {
+	fam := fmt.Sprintf("no-onnext-ob%v-sub%v", ob, sub)
+	return &vsched.Scenario{
+		Name:  fmt.Sprintf("no-onnext/observeOn=%v/subscribeOn=%v", ob, sub),
+		Bound: bound,
+		Body: func() {
+			m := fpgo.MonadIONewGenerics(func() int {
+				vsched.Event("effect", "outer")
+				return 1
+			}).FlatMap(func(v int) *fpgo.MonadIODef[int] {
+				vsched.Event("effect", "flatmap-fn")
+				return fpgo.MonadIONewGenerics(func() int {
+					vsched.Event("effect", "inner")
+					return v + 1
+				})
+			})
+			if ob {
+				m.ObserveOn(fpgo.Handler.NewByCh(make(chan func(), 1)))
+			}
+			if sub {
+				m.SubscribeOn(fpgo.Handler.NewByCh(make(chan func(), 1)))
+			}
+			m.Subscribe(fpgo.Subscription[int]{})
+			m.Subscribe(fpgo.Subscription[int]{OnNext: nil})
+			vsched.Event("subscribed-without-onnext")
+			vsched.Sleep(50 * time.Millisecond)
+			vsched.Event("waited")
+			m.Subscribe(fpgo.Subscription[int]{OnNext: func(v int) { vsched.Event("onnext", v) }})
+		},
+		Check: func(r *vsched.Result) []vsched.Failure {
+			fs := e1.Basic("C11", fam, r, nil)
+			if len(r.Panics) > 0 {
+				return fs
+			}
+			var ran []string
+			waited := false
+			for _, e := range r.Events {
+				switch e.Kind {
+				case "waited":
+					waited = true
+				case "effect":
+					ran = append(ran, e.Args[0].(string))
+					if !waited {
+						fs = append(fs, e1.Fail("C11|"+fam+"|no-onnext-ran", "a Subscription without OnNext ran the %s effect (observeOn handler %v, subscribeOn handler %v)", e.Args[0], ob, sub))
+					}
+				}
+			}
+			if fmt.Sprint(ran) != "[outer flatmap-fn inner]" && len(fs) == 0 {
+				fs = append(fs, e1.Fail("C11|"+fam+"|effect-count", "two Subscriptions without OnNext and one with: effects run %v, expected [outer flatmap-fn inner]", ran))
+			}
+			if e1.Count(r, "onnext") != 1 && len(fs) == 0 {
+				fs = append(fs, e1.Fail("C11|"+fam+"|onnext-count", "OnNext invoked %d times", e1.Count(r, "onnext")))
+			}
+			return fs
+		},
+	}
+}
+
 func scenarios(tier string) []*vsched.Scenario {
 	b := 2
 	if tier == "thorough" {
@@ -240,6 +302,11 @@ func scenarios(tier string) []*vsched.Scenario {
 		}
 	}
 	out = append(out, handlerScenario(true, true, 3, 3, 1))
+	for _, ob := range []bool{false, true} {
+		for _, sub := range []bool{false, true} {
+			out = append(out, noOnNextScenario(ob, sub, b))
+		}
+	}
 	for _, c := range []string{"Just(nil)", "Just(7)", "JustGenerics(nil)", "JustGenerics(7)", "New"} {
 		out = append(out, isolationScenario(c, false, 1), isolationScenario(c, true, 1))
 	}
